@@ -60,6 +60,8 @@ def main():
             for p in props:
                 rc, out = sh("./check %s --tier quick" % p, cwd="/verif")
                 lines = [l for l in out.splitlines() if l.startswith("VIOLATION") or l.startswith("OK ") or l.startswith("KNOWN-FINDING")]
+                # keep the verdict lines first (input replays before the others), then known findings
+                lines.sort(key=lambda l: (0 if l.startswith("VIOLATION") and "no-failing-input-found" not in l else 1 if l.startswith(("VIOLATION", "OK ")) else 2))
                 results[p] = {"exit": rc, "lines": lines[:6]}
             # keep the minimised failing inputs as corpus cases (they run first on every later check)
             for p in props:
